@@ -363,6 +363,35 @@ def r_lalr(P, chk):
                               "%s parses chain `%s` without re-classifying its lines first: line types left by parser "
                               "actions (LINE_CONTINUATION, LINE_FALLBACK ...) are not accepted in every state" % (g.name, arg))
     chk.floor(rid, n_sites, 4, "call sites of mmd_parse_token_chain")
+    # ... and those helpers really classify *every* line: in their loop over the lines no pass can reach the next one without
+    # calling mmd_assign_line_type (a line that keeps a type a parser action gave it is rejected by the nested parser and dropped)
+    for hn in ("deindent_block", "strip_quote_markers_from_block"):
+        h = P.func(hn, "mmd.c")
+        hp = h.cfg.positions()
+        calls = [c for c in h.calls("mmd_assign_line_type") if c.get("i") in hp]
+        cb = {hp[c["i"]][0] for c in calls}
+        ok = bool(calls)
+        for c in calls:
+            loop = next((a for a in h.ancestors(c) if a["k"] in ("WhileStmt", "ForStmt", "DoStmt")), None)
+            if loop is None:
+                ok = False
+                continue
+            cond = loop["c"][0] if loop["k"] == "WhileStmt" else loop["c"][1]
+            body = loop["c"][1] if loop["k"] == "WhileStmt" else (loop["c"][3] if loop["k"] == "ForStmt" else loop["c"][0])
+            if cond is None or cond.get("i") not in hp:
+                continue
+            head = hp[cond["i"]][0]
+            body_blocks = [hp[x["i"]][0] for x in walk(body) if x.get("i") in hp]
+            entries = [s_ for s_ in h.cfg.blocks[head].rsucc if s_ in body_blocks]
+            for e0 in entries:
+                reach = h.cfg.reachable(start=e0, blocked=cb)
+                if head in reach and e0 not in cb:
+                    ok = False
+        chk.obligation(rid, "%s calls mmd_assign_line_type for every line of the block (no pass of its loop can skip it)" % hn, ok)
+        if not ok:
+            chk.violation(rid, "lalr:partial-reclass:%s" % hn, h.where(), "%s can move on to the next line without re-classifying the "
+                          "current one: a continuation line keeps the LINE_CONTINUATION type a parser action gave it, which the nested "
+                          "parser rejects at a block start - the paragraph is dropped" % hn)
 
 
 def path_avoiding(f, avoid_ids, target):
